@@ -188,6 +188,24 @@ def run(prop, tier, seed):
     cc.inconclusive(f"property {prop} has no engine yet")
 
 
+def copyclone_diff():
+    """(first differing pair of lines or None, number of lines) of the `copyclone` listing in the stable and the unstable build."""
+    outs = {}
+    for v in ("release", "unstable"):
+        p = subprocess.run([cc.binary(v), "copyclone"], stdout=subprocess.PIPE, stderr=subprocess.STDOUT, text=True, timeout=600)
+        if p.returncode != 0:
+            cc.log(p.stdout[-1500:])
+            cc.inconclusive(f"property=C18: copyclone listing exited {p.returncode} in build {v}")
+        outs[v] = p.stdout.splitlines()
+    a, b = outs["release"], outs["unstable"]
+    for x, y in zip(a, b):
+        if x != y:
+            return (x, y), len(a)
+    if len(a) != len(b):
+        return ("(%d lines)" % len(a), "(%d lines)" % len(b)), len(a)
+    return None, len(a)
+
+
 def run_c18(tier, seed):
     """Differential: stable default build vs nightly + `unstable` feature, same generated cases, per-unit trace
     digests compared position by position; the unstable build also runs every oracle itself."""
@@ -301,6 +319,15 @@ def run_c18(tier, seed):
             ev = rep["enumerative"]["evaluations"] + rep["proptest"]["evaluations"]
             cov["evaluations"] += ev
             cov["per_property"][label] = {"cases_unstable_build_only": ev}
+    if not violation:
+        diff, n = copyclone_diff()
+        cov["evaluations"] += 2 * n
+        cov["per_property"]["copy_with_observable_clone"] = {"lines_compared": n}
+        if diff:
+            path = cc.save_replay(prop, {"property": prop, "kind": "copyclone", "stable": diff[0], "unstable": diff[1],
+                                         "message": "for an element type that is Copy and has an observable Clone, the number of clone calls or the resulting values differ between the stable default build and the nightly `unstable` build"})
+            cc.log(f"stable:   {diff[0]}\nunstable: {diff[1]}")
+            violation = (path, "clone calls / values differ between builds for a Copy element type")
     wall = time.time() - t0
     cc.write_evidence(prop, tier, seed, cov, wall, 1 if violation else 0,
                       ["case generation is a pure function of the seed, so both builds execute the same cases",
@@ -547,6 +574,16 @@ def replay(prop, path):
     if prop == "C15":
         import c15
         return c15.replay(path)
+    if prop == "C18" and meta.get("kind") == "copyclone":
+        cc.build("release")
+        cc.build("unstable")
+        diff, n = copyclone_diff()
+        if diff:
+            cc.log(f"stable:   {diff[0]}\nunstable: {diff[1]}")
+            cc.log(f"VIOLATION property={prop} replay={path}")
+            sys.exit(1)
+        cc.log(f"ok: {n} lines identical in both builds")
+        sys.exit(0)
     if prop == "C18":
         meta = json.load(open(path))
         sub = meta.get("sub_property", "C01")
